@@ -583,6 +583,28 @@ Section C03LossyClosed.
              ltb_trans ltb_total prog prog_ok v0 c0 c0_sorted id_tok id_of val_tok val_of lossy_of).
   Qed.
 
+  (* ... and for "a reader that keeps receiving" (LossyPipe.drained = the judge's and the harness's
+     "receive until nothing is offered"; finitely many receives): after it nothing is offered, nothing
+     is pending in the merger, and what the consumer has received is all seeds followed by a valid
+     edit script from the snapshot to the final contents, passed through include and the read mask *)
+  Theorem C03_lossy_reader_that_keeps_receiving_converges : forall sched l,
+    let st := lrun sched (s0, []) in
+    all_done (fst st) = true -> In l (snd st) -> lossy_of (ls_tid l) = Some None ->
+    exists u, In u (st_csubs (fst st)) /\ cs_tid u = ls_tid l /\
+      (ro_updates_only (cs_ro u) = false ->
+       (forall e, In e (cs_evs u) -> id_of (id_tok (ce_id e)) = ce_id e) ->
+       let L0 := c_items (cs_at u) in
+       let X := c_items (w_c (st_w (fst st))) in
+       let l' := drained r_filter None id_of val_of l in
+       ls_slot l' = None /\ queue (ls_m l') = [] /\
+       (forall z, Change.fold_view (ls_gotm l') (tokview L0) z = tokview X z) /\
+       valid_script (ls_gotm l') (tokview L0) = true /\
+       ls_gotc l' = allseeds r_filter (cs_ro u) L0 ++ fmap (post r_filter None (cs_ro u)) (map (dec id_of val_of) (ls_gotm l'))).
+  Proof.
+    exact (lossy_layer_converges_reader_keeps_receiving m_eqb m_empty w_validate w_merge r_filter clock_at str_ltb idfun
+             m_eqb_eq ltb_irrefl ltb_trans ltb_total prog prog_ok v0 c0 c0_sorted id_tok id_of val_tok val_of lossy_of).
+  Qed.
+
   (* every event a subscriber is ever delivered says by its kind whether the item existed: an ADD
      carries no old value, an UPDATE / REMOVE carries one (what C09's merge algebra relies on) *)
   Theorem C03_delivered_events_say_whether_the_item_existed : forall sched u,
@@ -594,6 +616,7 @@ Section C03LossyClosed.
   Qed.
 End C03LossyClosed.
 Print Assumptions C03_lossy_converges_for_every_program_schedule_and_pace.
+Print Assumptions C03_lossy_reader_that_keeps_receiving_converges.
 Print Assumptions C03_delivered_events_say_whether_the_item_existed.
 
 (* the judge's id table (the ids the run's deliveries mention, by position) satisfies the hypothesis *)
